@@ -209,8 +209,10 @@ class PathRun:
             return "tmp", rp
         if rp == a.path or rp.startswith(a.path + "/"):
             return "arena-outside-root", rp
-        base = os.path.dirname(a.path)
-        if rp == base or rp.startswith(base + "/"):
+        from ..env import SHM
+
+        # everything else on the scratch file system (levels above the arena) is outside the root too
+        if rp == SHM or rp.startswith(SHM.rstrip("/") + "/"):
             return "arena-outside-root", rp
         return "system", rp
 
